@@ -123,6 +123,8 @@ func main() {
 	var vacuous []vc.OblResult
 	var undecided []string
 	total, discharged, canaries, canariesOK := 0, 0, 0, 0
+	returns := 0
+	var deadReturns []string
 	solverTime := map[string]float64{}
 	solverCount := map[string]int{}
 	assumptions := map[string]bool{}
@@ -160,6 +162,13 @@ func main() {
 			notes = append(notes, rep.Name+": "+nn)
 		}
 		for _, r := range rep.Results {
+			if r.Vacuity && r.Kind == "reachability" {
+				returns++
+				if r.Status != "ok" {
+					deadReturns = append(deadReturns, r.Name)
+				}
+				continue
+			}
 			if r.Vacuity {
 				canaries++
 				if r.Status == "ok" {
@@ -234,6 +243,9 @@ func main() {
 	for _, li := range lemmas {
 		fns = append(fns, "lemma "+p.Spec.Lemmas[li].Name)
 	}
+	if len(deadReturns) > 0 {
+		fmt.Printf("note: %d of %d return points are provably unreachable under the contracts (listed in the evidence): %s\n", len(deadReturns), returns, strings.Join(deadReturns, ", "))
+	}
 	fmt.Printf("%s %s: %d functions/lemmas under contract, %d obligations, %d discharged, %d failed, %d vacuity canaries (%d ok), %.1fs\n",
 		*prop, *tier, len(fns), total, discharged, len(failed), canaries, canariesOK, wall)
 
@@ -277,6 +289,8 @@ func main() {
 				"discharged_by_solver":     solverCount,
 				"vacuity_canaries":         canaries,
 				"vacuity_canaries_not_provable": canariesOK,
+				"return_points":            returns,
+				"return_points_proved_unreachable": deadReturns,
 				"undischarged":             und,
 				"undecided":                undecided,
 				"engine_abstractions_hit":  abs,
